@@ -38,9 +38,13 @@ const (
 )
 
 var (
-	capForks  = []execenv.Fork{execenv.London, execenv.Cancun, execenv.Prague, execenv.Osaka, execenv.Osaka, execenv.Osaka, execenv.Amsterdam, execenv.Amsterdam}
+	// rule-set slots of the grid: Frontier stands for "one of London, Cancun, Prague" (no
+	// per-transaction cap; drawn per case); Osaka, where the cap applies, gets half of the grid
+	capForks  = []execenv.Fork{execenv.Frontier, execenv.Frontier, execenv.Osaka, execenv.Osaka, execenv.Osaka, execenv.Amsterdam}
 	capKinds  = []string{"block", "call", "maxtxgas", "balance", "gascap"}
-	capRels   = []string{"below-far", "below-near", "at", "above-near", "above-next", "above-all"}
+	// (the relations between the binding cap and the next one are cheap - one failing execution
+	// in the estimator - and are what tells a cap that is not applied: double weight)
+	capRels   = []string{"below-far", "below-near", "at", "above-near", "above-next", "above-next", "at-next", "at-next", "above-all"}
 	capCells  = len(capForks) * len(capKinds) * len(capRels)
 	burnerAt  = common.HexToAddress("0xb0b0000000000000000000000000000000000001")
 	innerAt   = common.HexToAddress("0xb0b0000000000000000000000000000000000002")
@@ -60,38 +64,27 @@ func forkClass(f execenv.Fork) string {
 
 // ---- burner programs -----------------------------------------------------------------------
 //
-// burner(k, w, s, l, n):  k x JUMPDEST (1 gas each); if w > 0 one MSTORE that expands the
-// memory to w words (3w + w*w/512 gas); if s > 0 a loop storing 1 into the fresh slots s..1
-// (about 22100 gas per iteration before Amsterdam); if l > 0 a loop of l LOG0 with 16 KB of
-// data (about 131500 gas per iteration: the sink with the least CPU per gas); a countdown
-// loop of n >= 1 iterations (26 gas each, the expensive one to execute); STOP. No GAS opcode,
-// no calls: the call succeeds iff the gas limit covers a fixed cost.
+// burner(k, s, n):  k x JUMPDEST (1 gas each); if s > 0 a loop storing 1 into the fresh slots
+// s..1 (about 22100 gas per iteration before Amsterdam: a quarter of the countdown loop's CPU
+// per gas; sinks that allocate - large LOGs, one big memory expansion - turned out slower
+// than the countdown loop on this machine); a countdown loop of n >= 1 iterations (26 gas
+// each); STOP. No GAS opcode, no calls: the call succeeds iff the gas limit covers a fixed
+// cost.
 //
 // outer(k): k x JUMPDEST; CALL innerAt with "all" gas (constant 0xffffffff, capped by the
 // 63/64 rule) and REVERT if it failed, else STOP. Gas-monotone as well; the requirement
 // exceeds the gas used by about 1/63 of the callee's cost.
 
-func burner(k int, w, s, lg, n uint64) []byte {
+func burner(k int, s, n uint64) []byte {
 	b := make([]byte, 0, k+64)
 	for i := 0; i < k; i++ {
 		b = append(b, byte(vm.JUMPDEST))
 	}
 	push4 := func(v uint64) { b = append(b, byte(vm.PUSH4), byte(v>>24), byte(v>>16), byte(v>>8), byte(v)) }
-	if w > 0 {
-		b = append(b, byte(vm.PUSH1), 0)
-		push4((w - 1) * 32)
-		b = append(b, byte(vm.MSTORE))
-	}
 	if s > 0 {
 		push4(s)
 		l := len(b)
 		b = append(b, byte(vm.JUMPDEST), byte(vm.PUSH1), 1, byte(vm.DUP2), byte(vm.SSTORE),
-			byte(vm.PUSH1), 1, byte(vm.SWAP1), byte(vm.SUB), byte(vm.DUP1), byte(vm.PUSH2), byte(l>>8), byte(l), byte(vm.JUMPI), byte(vm.POP))
-	}
-	if lg > 0 {
-		push4(lg)
-		l := len(b)
-		b = append(b, byte(vm.JUMPDEST), byte(vm.PUSH2), 0x40, 0x00, byte(vm.PUSH1), 0, byte(vm.LOG0),
 			byte(vm.PUSH1), 1, byte(vm.SWAP1), byte(vm.SUB), byte(vm.DUP1), byte(vm.PUSH2), byte(l>>8), byte(l), byte(vm.JUMPI), byte(vm.POP))
 	}
 	push4(n)
@@ -118,22 +111,6 @@ func outer(k int) []byte {
 	return b
 }
 
-func memCost(w uint64) uint64 { return 3*w + w*w/512 }
-
-// wordsFor returns the largest w with memCost(w) <= budget.
-func wordsFor(budget uint64) uint64 {
-	lo, hi := uint64(0), uint64(1<<20)
-	for lo+1 < hi {
-		mid := (lo + hi) / 2
-		if memCost(mid) <= budget {
-			lo = mid
-		} else {
-			hi = mid
-		}
-	}
-	return lo
-}
-
 // minGas is the harness' own search for the smallest gas limit with which the call succeeds
 // in the estimator's environment; ok=false if it fails even with bigGas.
 func minGas(e *env, call *core.Message) (need uint64, ok bool) {
@@ -150,13 +127,18 @@ func minGas(e *env, call *core.Message) (need uint64, ok bool) {
 			return u, true
 		}
 	} else {
-		// More than the gas used is needed (63/64 rule, refunds). Probe order is a heuristic
-		// only (first a little above used*64/63, then closing in from there); the answer
-		// rests on the invariant "lo fails, hi succeeds" and the final bisection.
+		// More than the gas used is needed (63/64 rule, refunds). The probe order is a
+		// heuristic only (start where a single all-gas CALL of a ~24k-overhead transaction
+		// would put it, then widen step by step); the answer rests on the invariant "lo
+		// fails, hi succeeds" and the final bisection.
 		lo = u
-		if g := u + u/63 + 64; g < hi && try(g) {
+		g := u + 64
+		if u > 24_000 {
+			g = u + (u-24_000)/63
+		}
+		if g < hi && try(g) {
 			hi = g
-			for step := uint64(64); hi-lo > step; step *= 4 {
+			for step := uint64(1); hi-lo > step; step *= 4 {
 				if !try(hi - step) {
 					lo = hi - step
 					break
@@ -167,7 +149,7 @@ func minGas(e *env, call *core.Message) (need uint64, ok bool) {
 			if g < hi {
 				lo = g
 			}
-			for step := uint64(64); lo+step < hi; step *= 2 {
+			for step := uint64(1); lo+step < hi; step *= 4 {
 				if try(lo + step) {
 					hi = lo + step
 					break
@@ -199,16 +181,16 @@ func (e *env) withCode(code map[common.Address][]byte) *env {
 
 // burnerParams describe one callee; code() is what goes into the state.
 type burnerParams struct {
-	nested     bool
-	k          int
-	w, s, l, n uint64
+	nested bool
+	k      int
+	s, n   uint64
 }
 
 func (p burnerParams) code() map[common.Address][]byte {
 	if p.nested {
-		return map[common.Address][]byte{burnerAt: outer(p.k), innerAt: burner(0, p.w, p.s, p.l, p.n)}
+		return map[common.Address][]byte{burnerAt: outer(p.k), innerAt: burner(0, p.s, p.n)}
 	}
-	return map[common.Address][]byte{burnerAt: burner(p.k, p.w, p.s, p.l, p.n)}
+	return map[common.Address][]byte{burnerAt: burner(p.k, p.s, p.n)}
 }
 
 // place chooses the parameters of the given shape such that the requirement is as close to
@@ -218,29 +200,24 @@ func (p burnerParams) code() map[common.Address][]byte {
 //
 //	loop    countdown loop only (every execution costs CPU in proportion to the gas)
 //	store   SSTORE loop for the bulk, countdown loop and pad for the remainder
-//	log     LOG0 loop for the bulk, countdown loop and pad for the remainder
-//	mem     one memory expansion for the bulk, countdown loop and pad for the remainder
-//	nested  outer contract calling a log burner with all gas (63/64 rule), pad in the outer
+//	nested  outer contract calling a store burner with all gas (63/64 rule), pad in the outer
 func place(e *env, call *core.Message, fork execenv.Fork, shape string, target uint64) burnerParams {
 	p := burnerParams{nested: shape == "nested", n: 1}
 	measure := func() (uint64, bool) { return minGas(e.withCode(p.code()), call) }
-	if shape == "mem" && target > 100_000 {
-		p.w = wordsFor(target - 100_000)
-	}
 	// the bulk sink: its cost per iteration under this rule set is measured, not assumed
 	var bulk *uint64
-	switch shape {
-	case "store":
+	if shape == "store" || shape == "nested" {
 		bulk = &p.s
-	case "log", "nested":
-		bulk = &p.l
 	}
-	per := uint64(0)
+	per, predicted, linear := uint64(0), uint64(0), true
 	if bulk != nil {
 		*bulk = 1
 		a, ok1 := measure()
 		*bulk = 2
 		b, ok2 := measure()
+		*bulk = 3
+		c, ok3 := measure()
+		linear = ok3 && c > b && c-b == b-a
 		*bulk = 0
 		if ok1 && ok2 && b > a {
 			per = b - a
@@ -249,14 +226,18 @@ func place(e *env, call *core.Message, fork execenv.Fork, shape string, target u
 				if p.nested {
 					*bulk = 1 + (target-a-per)/64*63/per
 				}
+				predicted = a + (*bulk-1)*per
 			}
 		}
 	}
 	// measured corrections; the countdown loop and the pad are exact units of 26 and 1 gas
 	// wherever the requirement equals the gas used
-	exact := shape == "loop" || (!p.nested && fork < execenv.Amsterdam)
+	exact := !p.nested && linear
 	for round := 0; round < 6; round++ {
-		need, ok := measure()
+		need, ok := predicted, true
+		if round > 0 || !exact || predicted == 0 { // (the bulk loop is linear where exact)
+			need, ok = measure()
+		}
 		if !ok || need == target {
 			break
 		}
@@ -267,6 +248,7 @@ func place(e *env, call *core.Message, fork execenv.Fork, shape string, target u
 				p.n += (d/64*63 - 64) / 26
 			case p.nested: // pad in front of the CALL: exact
 				p.k += int(d)
+				return p
 			default:
 				p.n += d / 26
 				p.k += int(d % 26)
@@ -283,8 +265,6 @@ func place(e *env, call *core.Message, fork execenv.Fork, shape string, target u
 		case bulk != nil && *bulk > 0 && per > 0:
 			*bulk--
 			p.n += per / 26
-		case p.w > 8:
-			p.w -= 4
 		default:
 			return p
 		}
@@ -305,12 +285,26 @@ func capCase(r *vrt.Run, ci int, heavy bool, offset int) {
 		cell = (ci*67 + offset) % capCells // 67 is coprime to the cell count: a spread sample
 	}
 	fork := capForks[cell%len(capForks)]
+	if fork == execenv.Frontier {
+		fork = []execenv.Fork{execenv.London, execenv.Cancun, execenv.Prague}[rng.Intn(3)]
+	}
 	want := capKinds[cell/len(capForks)%len(capKinds)]
 	rel := capRels[cell/len(capForks)/len(capKinds)]
 
-	// the binding cap's position
+	// the binding cap's position: around the per-transaction cap of Osaka (also where that
+	// cap does not exist: nothing may be clamped there), at 5M, ~18M, 30M, and - cheap to
+	// execute, same cap logic - somewhere in 200k..2M
 	var anchor uint64
-	switch rng.Intn(6) {
+	pick := rng.Intn(8)
+	switch {
+	case fork != execenv.Osaka && !heavy && pick >= 5:
+		pick = 7 // 4 in 8 small where the 2^24 scale has no special meaning
+	case fork == execenv.Osaka && want != "maxtxgas" && pick >= 3:
+		// above 2^24 another cap cannot bind under Osaka: those positions belong to the
+		// "maxtxgas" column, where every other cap is at or above 2^24
+		pick = []int{0, 1, 2, 7, 7}[pick-3]
+	}
+	switch pick {
 	case 0:
 		anchor = 5_000_000 + uint64(rng.Intn(200_000))
 	case 1:
@@ -321,8 +315,13 @@ func capCase(r *vrt.Run, ci int, heavy bool, offset int) {
 		anchor = maxTx + 1 + uint64(rng.Intn(64))
 	case 4:
 		anchor = 18_000_000 + uint64(rng.Intn(1_000_000))
-	default:
+	case 5:
 		anchor = 30_000_000
+	default:
+		anchor = 200_000 + uint64(rng.Intn(1_800_000))
+		if heavy {
+			anchor = 5_000_000 + uint64(rng.Intn(200_000))
+		}
 	}
 	if want == "maxtxgas" {
 		anchor = maxTx
@@ -341,36 +340,77 @@ func capCase(r *vrt.Run, ci int, heavy bool, offset int) {
 		}
 		return 40_000_000 + uint64(rng.Intn(5))*5_000_000
 	}
-	blockLimit := loose()
-	if want == "block" {
+	// the designated looser cap ("under"): present for sure and strictly above the binding
+	// one, so that every pair (cap that binds, cap that would bind next) is reached; the
+	// remaining caps are absent or anywhere at/above the binding one
+	var cands []string
+	for _, c := range capKinds {
+		switch {
+		case c == want, c == "maxtxgas" && fork != execenv.Osaka, c == "call" && want == "block", c == "block" && want == "call":
+		default:
+			cands = append(cands, c)
+		}
+	}
+	under := cands[rng.Intn(len(cands))]
+	aboveAnchor := func() uint64 {
+		for {
+			if v := loose(); v > anchor {
+				return v
+			}
+		}
+	}
+	underVal := aboveAnchor()
+	if under == "maxtxgas" {
+		underVal = maxTx
+	}
+	above := func() uint64 { return underVal }
+	rest := func() uint64 { // a cap that is neither meant to bind nor to come next
+		if v := loose(); v >= underVal || rng.Intn(2) == 0 {
+			return v
+		}
+		return underVal + uint64(rng.Intn(3))*uint64(rng.Intn(1_000_000))
+	}
+	blockLimit := rest()
+	switch {
+	case want == "block":
 		blockLimit = anchor
-	} else if want == "maxtxgas" || rng.Intn(2) == 0 {
+	case under == "block":
+		blockLimit = above()
+	case want == "maxtxgas" || rng.Intn(2) == 0:
 		blockLimit = max(blockLimit, 30_000_000+uint64(rng.Intn(4))*10_000_000) // realistic block limits
 	}
 	var callGas uint64
 	switch k := rng.Intn(10); {
 	case want == "call":
 		callGas = anchor
-	case want == "block" || k < 4:
+	case under == "call":
+		callGas = above()
+	case want == "block" || under == "block" || k < 4:
 		// absent (a caller-supplied limit would replace the block gas limit)
 		if k == 0 {
 			callGas = uint64(rng.Intn(int(params.TxGas))) // below 21000: ignored
 		}
 	default:
-		callGas = loose()
+		callGas = rest()
 	}
 	var gasCap uint64
-	if want == "gascap" {
+	switch {
+	case want == "gascap":
 		gasCap = anchor
-	} else if rng.Intn(2) == 0 {
-		gasCap = loose()
+	case under == "gascap":
+		gasCap = above()
+	case rng.Intn(2) == 0:
+		gasCap = rest()
 	}
-	priced := want == "balance" || rng.Intn(3) > 0
+	priced := want == "balance" || under == "balance" || rng.Intn(3) > 0
 	var balAllow uint64 // 0: rich
-	if want == "balance" {
+	switch {
+	case want == "balance":
 		balAllow = anchor
-	} else if priced && rng.Intn(2) == 0 {
-		balAllow = loose()
+	case under == "balance":
+		balAllow = above()
+	case priced && rng.Intn(2) == 0:
+		balAllow = rest()
 	}
 
 	_, from := execenv.Key(rng.Intn(4))
@@ -403,7 +443,7 @@ func capCase(r *vrt.Run, ci int, heavy bool, offset int) {
 		}
 	}
 	errorRatio := 0.0
-	if rng.Intn(4) == 0 || (heavy && rng.Intn(2) == 0) {
+	if rng.Intn(2) == 0 {
 		errorRatio = 0.015
 	}
 
@@ -442,11 +482,16 @@ func capCase(r *vrt.Run, ci int, heavy bool, offset int) {
 		target = planned
 	case "above-near":
 		target = planned + 1 + uint64(rng.Intn(64))
-	case "above-next":
+	case "above-next": // above the binding cap, within the next one
 		if next == 0 { // no looser cap: any amount above
 			target = planned + 1 + uint64(rng.Intn(3_000_000))
 		} else {
 			target = planned + 1 + uint64(rng.Int63n(int64(next-planned)))
+		}
+	case "at-next": // exactly what the next cap allows (or one less)
+		target = planned + 1 + uint64(rng.Intn(3_000_000))
+		if next != 0 {
+			target = max(planned+1, next-uint64(rng.Intn(2)))
 		}
 	default:
 		target = max(top, blockLimit) + 1 + uint64(rng.Intn(1_000_000))
@@ -455,9 +500,12 @@ func capCase(r *vrt.Run, ci int, heavy bool, offset int) {
 
 	shape := "loop"
 	if !heavy {
-		shape = []string{"log", "log", "log", "log", "log", "log", "log", "log", "log", "store", "store", "nested", "nested", "nested", "nested", "mem"}[rng.Intn(16)]
+		shape = "store"
+		if rng.Intn(8) == 0 {
+			shape = "nested"
+		}
 	}
-	r.Case("cap-grid %d heavy=%v fork %s bind %s rel %s shape %s anchor %d block %d callgas %d gascap %d balallow %d target %d", ci, heavy, fork, want, rel, shape, anchor, blockLimit, callGas, gasCap, balAllow, target)
+	r.Case("cap-grid %d heavy=%v fork %s bind %s under %s rel %s shape %s anchor %d block %d callgas %d gascap %d balallow %d target %d", ci, heavy, fork, want, under, rel, shape, anchor, blockLimit, callGas, gasCap, balAllow, target)
 
 	alloc := map[common.Address]execenv.Account{
 		burnerAt: {Nonce: 1, Code: []byte{byte(vm.STOP)}},
@@ -505,10 +553,10 @@ func capCase(r *vrt.Run, ci int, heavy bool, offset int) {
 		}
 	}
 
-	witness := map[string]any{"family": "cap-grid", "index": ci, "heavy": heavy, "fork": fork.String(), "shape": shape, "meant_to_bind": want, "meant_relation": rel,
+	witness := map[string]any{"family": "cap-grid", "index": ci, "heavy": heavy, "fork": fork.String(), "shape": shape, "meant_to_bind": want, "meant_next_cap": under, "meant_relation": rel,
 		"from": from.Hex(), "to": to.Hex(), "value": value.String(), "data": vrt.Hex(call.Data), "gas_price": call.GasPrice.String(), "fee_cap": call.GasFeeCap.String(),
 		"call_gas_limit": callGas, "gas_cap": gasCap, "block_gas_limit": blockLimit, "balance": e.st.GetBalance(from).String(), "balance_allowance_planned": balAllow,
-		"error_ratio": errorRatio, "monotone": true, "target_requirement": target, "burner": fmt.Sprintf("pad %d, memory words %d, sstore iterations %d, log iterations %d, loop iterations %d", bp.k, bp.w, bp.s, bp.l, bp.n), "harness_min_gas_rich_sender": need, "succeeds_with_unlimited_gas": feasible,
+		"error_ratio": errorRatio, "monotone": true, "target_requirement": target, "burner": fmt.Sprintf("pad %d, sstore iterations %d, loop iterations %d", bp.k, bp.s, bp.n), "harness_min_gas_rich_sender": need, "succeeds_with_unlimited_gas": feasible,
 		"target_code": vrt.Hex(trunc(alloc[burnerAt].Code)), "inner_code": vrt.Hex(trunc(alloc[innerAt].Code))}
 	v := judge(r, e, call, judgeParams{fork: fork, gasCap: gasCap, errorRatio: errorRatio, monotone: true, need: need, realTx: true, witness: witness})
 
@@ -531,10 +579,22 @@ func capCase(r *vrt.Run, ci int, heavy bool, offset int) {
 	case need < v.allow:
 		actual = "below"
 	default:
+		// above the binding cap only (every other applicable cap would admit it: were the
+		// binding cap not applied, an estimate would come out), or above several caps
+		nextName, nextCap := "", uint64(0)
 		for n, c := range v.caps {
-			if n != v.capBy && c > v.allow && need <= c {
-				actual = "above-fits-looser-cap"
+			if n != v.capBy && (nextName == "" || c < nextCap || c == nextCap && n < nextName) {
+				nextName, nextCap = n, c
 			}
+		}
+		switch {
+		case nextName == "":
+			actual = "above-the-only-cap"
+		case need <= nextCap:
+			actual = "above-binding-cap-only"
+			r.Count(fmt.Sprintf("pair/%s/%s-then-%s", fc, v.capBy, nextName), 1)
+		default:
+			actual = "above-several-caps"
 		}
 	}
 	r.Count("cap_grid_cases", 1)
@@ -545,6 +605,13 @@ func capCase(r *vrt.Run, ci int, heavy bool, offset int) {
 		}
 	}
 	r.Count(fmt.Sprintf("cell/%s/%s/%s", fc, v.capBy, actual), 1)
+	rel3 := actual
+	switch actual {
+	case "above-the-only-cap", "above-binding-cap-only", "above-several-caps", "never-succeeds":
+		rel3 = "above"
+	}
+	r.Count(fmt.Sprintf("grid/%s/%s/%s", fc, v.capBy, rel3), 1)
+	r.Count(fmt.Sprintf("grid/%s/any/%s", fc, rel3), 1)
 	vs := func(x uint64) string {
 		switch {
 		case x < maxTx:
@@ -598,4 +665,52 @@ func trunc(b []byte) []byte {
 	}
 	// keep the tail (the pad of JUMPDESTs in front carries no information)
 	return b[len(b)-96:]
+}
+
+// capRequires states the minimal coverage of the grid: thresholds are per 3 rounds over the
+// grid (the quick tier) and scale with the number of rounds.
+func capRequires(r *vrt.Run, nc, nh int) {
+	q := int64(nc / capCells)
+	req := func(name string, per3 int64) { r.Require(name, per3*q/3) }
+	for _, fc := range []string{"pre-osaka", "osaka"} {
+		for _, by := range capKinds {
+			if by == "maxtxgas" && fc != "osaka" {
+				continue
+			}
+			for _, rel := range []string{"below", "at", "above"} {
+				req(fmt.Sprintf("grid/%s/%s/%s", fc, by, rel), 2)
+			}
+		}
+	}
+	// Amsterdam has one slot of the grid (and requirements above ~2^24 of regular gas cannot
+	// be met there at all): coverage per relation and per cap, not per pair
+	for _, rel := range []string{"below", "at", "above"} {
+		req("grid/amsterdam/any/"+rel, 6)
+	}
+	// the per-transaction cap against every other way of raising the allowance above it
+	for _, x := range capKinds {
+		for _, y := range capKinds {
+			if x == y || x == "block" && y == "call" || x == "call" && y == "block" {
+				continue
+			}
+			if x != "maxtxgas" && y != "maxtxgas" {
+				req(fmt.Sprintf("pair/pre-osaka/%s-then-%s", x, y), 2)
+			}
+			req(fmt.Sprintf("pair/osaka/%s-then-%s", x, y), 2)
+		}
+	}
+	req("cell/osaka/maxtxgas/above-binding-cap-only", 12)
+	for _, d := range []string{"callgas-none", "callgas-ignored", "callgas-below", "callgas-eq", "callgas-above", "gascap-none", "gascap-below", "gascap-eq", "gascap-above",
+		"balance-unpriced", "balance-rich", "balance-below", "balance-eq", "balance-above", "requirement-below", "requirement-eq", "requirement-above"} {
+		req("dim/osaka/"+d+"-pertx", 4)
+	}
+	for _, fc := range []string{"pre-osaka", "amsterdam"} {
+		for _, d := range []string{"callgas-none", "callgas-above", "gascap-none", "gascap-above", "balance-unpriced", "balance-above", "requirement-below"} {
+			req("dim/"+fc+"/"+d+"-pertx", 4)
+		}
+	}
+	req("dim/pre-osaka/requirement-above-pertx", 8) // nothing clamps at 2^24 before Osaka
+	req("cap_grid_estimate_equals_allowance", 30)
+	r.Require("cap_grid_loop_cases", int64(nh))
+	r.Require("cap_grid_loop_cases_16M_plus", int64(nh)/6)
 }
